@@ -19,6 +19,7 @@ ONLY = {
  "C16-elitism-partial-selection-truncation": ("C16", "elitism*"), "C17-epsilon-mad-once": ("C17", "lexicase_epsilon_1case"), "C17b-lexicase-direction-by-position": ("C17", "lexicase_2cases*"),
  "C19-bisect-left-zero-weight-head": ("C19", "*zero*first*"), "C20-flush-only-on-best": ("C20", "single_objective"), "C20b-extra-fields-dropped-with-custom-fields": ("C20", "custom*"),
  "C01c-abstract-without-productions-gets-distance": ("C01", "*family*"), "C03b-tuple-members-one-level-deeper": ("C03", "*f7*"), "C05c-subtypes-indexed-by-direct-base": ("C05", "tables_generated_family*"), "C08b-dsge-crossover-key-set-union": ("C08", "operators_dsge*"), "C11c-gengylist-add-keeps-labels": ("C11", "*f15*"), "C12b-pareto-front-pruned-while-iterating": ("C12", "multi_tracker_1obj"), "C14b-tournament-evaluates-uncounted": ("C14", "loop_gp_mutation_then_tournament"), "C16b-isfinite-ranks-infinite-best-last": ("C16", "*infinite*"), "C18b-random-int-wide-range-modulo-dropped": ("C18", "decider_random_int_MaxDepthDecider"), "C19b-update-weights-skips-undeclared-rules": ("C19", "engineB_update_weights_nested_f6_first"),
+ "C02c-constructor-hints-cached-per-class": ("C02", "*redeclared"), "C04c-register-only-direct-subclasses": ("C04", "*f16*"), "C06c-sge-crossover-positional-after-mutate-reorders-keys": ("C06", "*of_mutant"), "C07c-dsge-decider-reused-stale-cursors": ("C07", "dsge_*f3c*"), "C09c-dsge-crossover-setdefault-on-parents": ("C09", "dsge_crossover_f8"), "C10c-alternatives-defaultdict-read-inserts": ("C10", "stack_f5ctx_create"), "C13c-tournament-evaluates-behind-the-evaluator": ("C13", "*tournament_counts"), "C15c-elitism-dedups-repeated-objects": ("C15", "step_elitism_repeats"), "C17c-key-function-reads-first-stored-fitness": ("C17", "*another_problem"), "C20c-simplegp-extra-fields-late-bound-again": ("C20", "simplegp_two_extra_fields"),
 }
 root = "/verif/seeded"
 prefix = sys.argv[1] if len(sys.argv) > 1 else ""
